@@ -9,6 +9,9 @@
 (* A declaration tree T has nodes 1..T.m in pre-order (node 1 is           *)
 (* FINAL_OUTPUT), par, and per node                                        *)
 (*   kind   "field" | "const" | "object" | "array" | "concat" | "dynfield"  *)
+(*          | "coalesce" | "upper" (custom functions over the texts of     *)
+(*          their arguments: first non-empty text; concatenation upper-    *)
+(*          cased)                                                         *)
 (*          dynfield = a field whose xpath is computed: its single child   *)
 (*          is the xpath_dynamic declaration, evaluated at the cursor; its *)
 (*          value "a" / "b" is the xpath; a failure or an empty value of   *)
@@ -113,6 +116,11 @@ Stored(T, t, v) == IF v = NilV THEN (IF T.keep[t] THEN <<"null">> ELSE <<>>) ELS
 
 \* the text a value contributes as a concat argument: absent => zero value ""
 ArgText(v) == IF v[1] \in {"s", "i"} THEN Tail(v) ELSE <<>>
+FuncKinds == {"concat", "coalesce", "upper"}
+\* how a function of kind k combines the text of its next argument with the combination of the rest
+Combine(k, a, rest) == IF k = "coalesce" THEN (IF a # <<>> THEN a ELSE rest) ELSE a \o rest
+UpperCh(c) == CASE c = "x" -> "X" [] c = "y" -> "Y" [] c = "a" -> "A" [] c = "b" -> "B" [] OTHER -> c
+Finish(k, s) == IF k = "upper" THEN [i \in 1..Len(s) |-> UpperCh(s[i])] ELSE s
 
 -----------------------------------------------------------------------------
 (* Ref: the documented evaluation, no cache, children in declaration order *)
@@ -178,18 +186,18 @@ RefEval(D, T, t, n0) ==
                          ELSE <<"ok">> \o (IF st = <<>> THEN <<>> ELSE <<"k", "f" \o ToString(k)>> \o st) \o Tail(rest)
                all == Fields(1)
            IN IF all = FailV THEN FailV ELSE NormComposite(T, t, Tail(all), Len(all) = 1, "{", "}")
-      [] T.kind[t] = "concat" ->
+      [] T.kind[t] \in FuncKinds ->
            LET ks == TKids(T, t)
                RECURSIVE Args(_)
-               Args(k) ==
+               Args(k) ==                                                    \* every argument is evaluated before the call
                  IF k > Len(ks) THEN <<"ok">>
                  ELSE LET v == RefEval(D, T, ks[k], n)
                           rest == Args(k + 1)
                       IN IF v = FailV \/ rest = FailV THEN FailV
                          ELSE IF v[1] \in {"{", "[", "null"} THEN FailV       \* ill-typed argument: not generated
-                         ELSE <<"ok">> \o ArgText(v) \o Tail(rest)
+                         ELSE <<"ok">> \o Combine(T.kind[t], ArgText(v), Tail(rest))
                all == Args(1)
-           IN IF all = FailV THEN FailV ELSE NormStr(T, t, Tail(all))
+           IN IF all = FailV THEN FailV ELSE NormStr(T, t, Finish(T.kind[t], Tail(all)))
 
 \* the value Read emits for the record whose cursor is node n (json.Marshal(nil) = null)
 RefRecord(D, T, n) ==
@@ -293,7 +301,7 @@ ImplEval(D, T, t, n0, cache, KeyHasAnchor, SortByFqdn) ==
                all == Fields(1, cache)
            IN IF all.v = FailV THEN all
               ELSE save([v |-> NormComposite(T, t, Tail(all.v), Len(all.v) = 1, "{", "}"), c |-> all.c])
-      [] T.kind[t] = "concat" ->
+      [] T.kind[t] \in FuncKinds ->
            LET ks == TKids(T, t)
                RECURSIVE Args(_, _)
                Args(k, ch) ==
@@ -302,9 +310,9 @@ ImplEval(D, T, t, n0, cache, KeyHasAnchor, SortByFqdn) ==
                       IN IF r.v = FailV THEN r
                          ELSE IF r.v[1] \in {"{", "[", "null"} THEN [v |-> FailV, c |-> r.c]
                          ELSE LET rest == Args(k + 1, r.c)
-                              IN IF rest.v = FailV THEN rest ELSE [v |-> <<"ok">> \o ArgText(r.v) \o Tail(rest.v), c |-> rest.c]
+                              IN IF rest.v = FailV THEN rest ELSE [v |-> <<"ok">> \o Combine(T.kind[t], ArgText(r.v), Tail(rest.v)), c |-> rest.c]
                all == Args(1, cache)
-           IN IF all.v = FailV THEN all ELSE save([v |-> NormStr(T, t, Tail(all.v)), c |-> all.c])
+           IN IF all.v = FailV THEN all ELSE save([v |-> NormStr(T, t, Finish(T.kind[t], Tail(all.v))), c |-> all.c])
 
 ImplRecord(D, T, n, KeyHasAnchor, SortByFqdn) ==
   LET v == ImplEval(D, T, 1, n, {}, KeyHasAnchor, SortByFqdn).v IN IF v = NilV THEN <<"null">> ELSE v
